@@ -13,6 +13,10 @@
 //!        with the model like the other pipelines; a request observed complete must find everything sent
 //!        before it already emitted
 //!
+//! Merge-on-drop guards (`keyed`, `mutex`, `worker`): created by `g` (CloseAndMergeOnDrop) or `h` (MergeOnDrop),
+//! they go out of scope by `d<g>` (drop), `u<g>` (an unwinding panic caught on the thread) or `j<g>` (an
+//! unwinding panic on a spawned thread that is joined); for the oracle and the model a drop is a drop.
+//!
 //! Implementation-vs-property oracle (independent of Lean; written from the property statement):
 //! the inputs are grouped per flush epoch and per key with `BTreeMap`s; every epoch must have emitted
 //! exactly one aggregate per distinct key whose sum fields are the sums, whose keep-last field is the
@@ -31,7 +35,7 @@ use metrique::writer::BoxEntrySink;
 use metrique::CloseValue;
 use metrique_aggregation::aggregate;
 use metrique_aggregation::aggregator::{Aggregate, KeyedAggregator};
-use metrique_aggregation::sink::{CloseAndMergeOnDrop, MutexSink, NonAggregatedSink, TeeSink, WorkerSink, non_aggregate};
+use metrique_aggregation::sink::{MergeOnDrop, MutexSink, NonAggregatedSink, TeeSink, WorkerSink, non_aggregate};
 use metrique_aggregation::traits::{AggregateSink, AggregateSinkRef, AggregateStrategy, FlushableSink, Key, RootSink};
 use metrique_aggregation::value::{Distribution, Flatten, KeepLast, MergeOptions, Sum};
 use metrique_writer::sink::FlushWait;
@@ -173,6 +177,53 @@ impl Key<CallEntry> for WeakKeyExtractor {
 impl AggregateStrategy for ByEndpointWeak {
     type Source = CallEntry;
     type Key = WeakKeyExtractor;
+}
+
+/// `MergeOnDrop<T, Sink>` (the `#[aggregate(direct)]` guard) needs `T: AggregateStrategy<Source = T>`:
+/// the already closed entries are given that impl, reusing the generated `Merge`/`Key` impls, so
+/// that both guard kinds feed the same sinks
+impl AggregateStrategy for CallEntry {
+    type Source = CallEntry;
+    type Key = CallKeyExtractor;
+}
+impl AggregateStrategy for PlainEntry {
+    type Source = PlainEntry;
+    type Key = metrique_aggregation::value::NoKey;
+}
+
+/// a merge-on-drop guard of either kind (its `Drop` does the merge)
+type AnyGuard = Box<dyn std::any::Any + Send>;
+
+/// the three ways a guard goes out of scope
+fn drop_guard(how: char, g: AnyGuard) {
+    match how {
+        // dropped by an unwinding panic, the panic contained by `catch_unwind`
+        'u' => {
+            let r = std::panic::catch_unwind(std::panic::AssertUnwindSafe(move || {
+                let _unit_of_work = g;
+                panic!("unit of work failed");
+            }));
+            assert!(r.is_err());
+        }
+        // dropped by an unwinding panic on a spawned thread, contained by `join`
+        'j' => {
+            let r = std::thread::spawn(move || {
+                let _unit_of_work = g;
+                panic!("unit of work failed");
+            })
+            .join();
+            assert!(r.is_err());
+        }
+        _ => drop(g),
+    }
+}
+
+/// `RootSink` over a keyed aggregator the harness can still flush: `MutexSink<SharedKeyed>`
+struct SharedKeyed(Arc<Mutex<KeyedAggregator<Call, BoxEntrySink>>>);
+impl AggregateSink<CallEntry> for SharedKeyed {
+    fn merge(&mut self, entry: CallEntry) {
+        self.0.lock().unwrap().merge(entry)
+    }
 }
 
 // ------------------------------------------------------------------------------------------------
@@ -575,15 +626,24 @@ fn run_keyed(c: &Case) -> Run {
     let ts = test_entry_sink();
     let mut run = Run::default();
     let r = catch(|| {
-        let mut agg: KeyedAggregator<Call, BoxEntrySink> = KeyedAggregator::new(ts.sink.clone());
+        let agg = Arc::new(Mutex::new(KeyedAggregator::<Call, BoxEntrySink>::new(ts.sink.clone())));
+        let root = MutexSink::new(SharedKeyed(agg.clone()));
+        let mut guards: Vec<Option<AnyGuard>> = vec![];
         let mut seen = 0;
         let mut epochs = vec![];
         for t in &c.toks {
-            match (t.tag, &t.input) {
-                ('m', Some(i)) => agg.merge(i.call().close()),
-                ('r', Some(i)) => agg.merge_ref(&i.call().close()),
-                ('f', None) => {
-                    agg.flush();
+            match (t.tag, t.idx, &t.input) {
+                ('m', None, Some(i)) => agg.lock().unwrap().merge(i.call().close()),
+                ('r', None, Some(i)) => agg.lock().unwrap().merge_ref(&i.call().close()),
+                ('g', None, Some(i)) => guards.push(Some(Box::new(i.call().close_and_merge(root.clone())))),
+                ('h', None, Some(i)) => guards.push(Some(Box::new(MergeOnDrop::new(i.call().close(), root.clone())))),
+                ('d' | 'u' | 'j', Some(g), None) => {
+                    if let Some(g) = guards.get_mut(g).and_then(|s| s.take()) {
+                        drop_guard(t.tag, g);
+                    }
+                }
+                ('f', None, None) => {
+                    agg.lock().unwrap().flush();
                     let es = ts.inspector.entries();
                     epochs.push((es[seen..].iter().map(agg_of).collect::<Vec<_>>(), vec![]));
                     seen = es.len();
@@ -653,14 +713,15 @@ fn run_mutex(c: &Case) -> Run {
     let mut run = Run::default();
     let r = catch(|| {
         let parent = ParentM { calls: MutexSink::new(Aggregate::default()) };
-        let mut guards: Vec<Option<CloseAndMergeOnDrop<Plain, MutexSink<Aggregate<Plain>>>>> = vec![];
+        let mut guards: Vec<Option<AnyGuard>> = vec![];
         for t in &c.toks {
             match (t.tag, t.idx, &t.input) {
-                ('g', None, Some(i)) => guards.push(Some(i.plain().close_and_merge(parent.calls.clone()))),
+                ('g', None, Some(i)) => guards.push(Some(Box::new(i.plain().close_and_merge(parent.calls.clone())))),
+                ('h', None, Some(i)) => guards.push(Some(Box::new(MergeOnDrop::new(i.plain().close(), parent.calls.clone())))),
                 ('m', None, Some(i)) => RootSink::merge(&parent.calls, i.plain().close()),
-                ('d', Some(g), None) => {
-                    if let Some(slot) = guards.get_mut(g) {
-                        drop(slot.take());
+                ('d' | 'u' | 'j', Some(g), None) => {
+                    if let Some(g) = guards.get_mut(g).and_then(|s| s.take()) {
+                        drop_guard(t.tag, g);
                     }
                 }
                 _ => panic!("harness: bad token {}", t.encode()),
@@ -724,7 +785,7 @@ fn run_worker(c: &Case) -> Run {
     let rt = rt();
     let first: Worker = WorkerSink::new(Probe { inner: tee, dropped: dtx }, Duration::from_secs(3600));
     let mut handles: Vec<Option<Worker>> = vec![Some(first)];
-    let mut guards: Vec<Option<CloseAndMergeOnDrop<Call, Worker>>> = vec![];
+    let mut guards: Vec<Option<AnyGuard>> = vec![];
     let r = catch(|| {
         for t in &c.toks {
             let live = |handles: &Vec<Option<Worker>>, h: usize| handles.get(h).map(|x| x.is_some()).unwrap_or(false);
@@ -736,12 +797,17 @@ fn run_worker(c: &Case) -> Run {
                 }
                 ('g', Some(h), Some(i)) => {
                     if live(&handles, h) {
-                        guards.push(Some(i.call().close_and_merge(handles[h].as_ref().unwrap().clone())));
+                        guards.push(Some(Box::new(i.call().close_and_merge(handles[h].as_ref().unwrap().clone()))));
                     }
                 }
-                ('d', Some(g), None) => {
-                    if let Some(slot) = guards.get_mut(g) {
-                        drop(slot.take());
+                ('h', Some(h), Some(i)) => {
+                    if live(&handles, h) {
+                        guards.push(Some(Box::new(MergeOnDrop::new(i.call().close(), handles[h].as_ref().unwrap().clone()))));
+                    }
+                }
+                ('d' | 'u' | 'j', Some(g), None) => {
+                    if let Some(g) = guards.get_mut(g).and_then(|s| s.take()) {
+                        drop_guard(t.tag, g);
                     }
                 }
                 ('F', Some(h), None) => {
@@ -1172,10 +1238,18 @@ fn expected_epochs(c: &Case) -> (Vec<Vec<In>>, Vec<In>) {
     let mut raw = vec![];
     match c.pipeline() {
         "keyed" | "tee" => {
+            let mut guards: Vec<Option<In>> = vec![];
             for t in &c.toks {
-                match (t.tag, &t.input) {
-                    ('f', _) => epochs.push(std::mem::take(&mut cur)),
-                    (_, Some(i)) => {
+                match (t.tag, t.idx, &t.input) {
+                    ('f', _, _) => epochs.push(std::mem::take(&mut cur)),
+                    ('g' | 'h', _, Some(i)) => guards.push(Some(i.clone())),
+                    ('d' | 'u' | 'j', Some(g), _) => {
+                        // a guard going out of scope merges its entry, whatever the cause
+                        if let Some(Some(i)) = guards.get_mut(g).map(|s| s.take()) {
+                            cur.push(i);
+                        }
+                    }
+                    (_, _, Some(i)) => {
                         cur.push(i.clone());
                         raw.push(i.clone());
                     }
@@ -1198,9 +1272,9 @@ fn expected_epochs(c: &Case) -> (Vec<Vec<In>>, Vec<In>) {
             let mut guards: Vec<Option<In>> = vec![];
             for t in &c.toks {
                 match (t.tag, t.idx, &t.input) {
-                    ('g', _, Some(i)) => guards.push(Some(i.clone())),
+                    ('g' | 'h', _, Some(i)) => guards.push(Some(i.clone())),
                     ('m', _, Some(i)) => cur.push(i.clone()),
-                    ('d', Some(g), _) => {
+                    ('d' | 'u' | 'j', Some(g), _) => {
                         if let Some(Some(i)) = guards.get_mut(g).map(|s| s.take()) {
                             cur.push(i);
                         }
@@ -1221,8 +1295,8 @@ fn expected_epochs(c: &Case) -> (Vec<Vec<In>>, Vec<In>) {
                         cur.push(i.clone());
                         raw.push(i.clone());
                     }
-                    ('g', _, Some(i)) if live => guards.push(Some(i.clone())),
-                    ('d', Some(g), _) => {
+                    ('g' | 'h', _, Some(i)) if live => guards.push(Some(i.clone())),
+                    ('d' | 'u' | 'j', Some(g), _) => {
                         if let Some(Some(i)) = guards.get_mut(g).map(|s| s.take()) {
                             cur.push(i.clone());
                             raw.push(i);
@@ -1527,15 +1601,38 @@ fn gen_input(rng: &mut Rng, nasty: bool) -> In {
     }
 }
 
+/// how a guard goes out of scope: plain drop, unwinding caught on this thread, unwinding on a joined thread
+fn drop_tag(rng: &mut Rng) -> char {
+    match rng.below(10) {
+        0..=4 => 'd',
+        5..=7 => 'u',
+        _ => 'j',
+    }
+}
+
+/// guard kind: `g` CloseAndMergeOnDrop (`close_and_merge`), `h` MergeOnDrop over the closed entry
+fn guard_tag(rng: &mut Rng) -> char {
+    if rng.chance(3, 5) { 'g' } else { 'h' }
+}
+
 fn gen_case(rng: &mut Rng, pipeline: &str, nasty: bool, max_len: u64) -> Case {
     let n = if rng.chance(1, 10) { rng.range(0, 2) } else { rng.range(1, max_len) };
     let mut toks = vec![];
     match pipeline {
         "keyed" | "tee" => {
             let pflush = rng.range(1, 6);
+            let mut kguards = 0usize;
             for _ in 0..n {
                 if rng.chance(pflush, 20) {
                     toks.push(Tok::new('f', None, None));
+                } else if pipeline == "keyed" && rng.chance(1, 4) {
+                    // merge-on-drop guards over a `RootSink` in front of the keyed aggregator
+                    if kguards > 0 && rng.chance(1, 2) {
+                        toks.push(Tok::new(drop_tag(rng), Some(rng.below(kguards as u64 + if nasty { 1 } else { 0 }) as usize), None));
+                    } else {
+                        toks.push(Tok::new(guard_tag(rng), None, Some(gen_input(rng, nasty))));
+                        kguards += 1;
+                    }
                 } else {
                     let tag = if pipeline == "keyed" && rng.chance(1, 3) { 'r' } else { 'm' };
                     toks.push(Tok::new(tag, None, Some(gen_input(rng, nasty))));
@@ -1556,10 +1653,10 @@ fn gen_case(rng: &mut Rng, pipeline: &str, nasty: bool, max_len: u64) -> Case {
             for _ in 0..n {
                 match rng.below(5) {
                     0 | 1 => {
-                        toks.push(Tok::new('g', None, Some(gen_input(rng, nasty))));
+                        toks.push(Tok::new(guard_tag(rng), None, Some(gen_input(rng, nasty))));
                         guards += 1;
                     }
-                    2 if guards > 0 => toks.push(Tok::new('d', Some(rng.below(guards as u64 + if nasty { 1 } else { 0 }) as usize), None)),
+                    2 if guards > 0 => toks.push(Tok::new(drop_tag(rng), Some(rng.below(guards as u64 + if nasty { 1 } else { 0 }) as usize), None)),
                     _ => toks.push(Tok::new('m', None, Some(gen_input(rng, nasty)))),
                 }
             }
@@ -1577,12 +1674,12 @@ fn gen_case(rng: &mut Rng, pipeline: &str, nasty: bool, max_len: u64) -> Case {
                 match rng.below(20) {
                     0..=7 => toks.push(Tok::new('s', Some(h), Some(gen_input(rng, nasty)))),
                     8..=10 => {
-                        toks.push(Tok::new('g', Some(h), Some(gen_input(rng, nasty))));
+                        toks.push(Tok::new(guard_tag(rng), Some(h), Some(gen_input(rng, nasty))));
                         if live {
                             guards += 1;
                         }
                     }
-                    11..=12 if guards > 0 => toks.push(Tok::new('d', Some(rng.below(guards as u64) as usize), None)),
+                    11..=12 if guards > 0 => toks.push(Tok::new(drop_tag(rng), Some(rng.below(guards as u64) as usize), None)),
                     13..=15 => toks.push(Tok::new('F', Some(h), None)),
                     16..=17 => {
                         toks.push(Tok::new('c', Some(h), None));
@@ -1957,6 +2054,58 @@ fn trace_request(keyless: bool, ins: &[In], aggs: &[Agg]) -> String {
 
 // ------------------------------------------------------------------------------------------------
 
+/// Fault probe (recorded in the report's notes, never an oracle failure): what happens to the inputs of
+/// OTHER callers when one `Merge::merge` panics (here: `Sum<u64>` overflowing in a build with overflow
+/// checks). The property quantifies over input sequences, not over panics inside a merge, so this is
+/// reported, not judged; see notes/C10.md "DEFECT candidate".
+fn probe_panicking_merge() -> Vec<String> {
+    let mut out = vec![];
+    let plain = |bytes: u64| In { endpoint: String::new(), shard: 0, bytes, last: 0, obs: vec![], opt: None, inner: 0 };
+    // MutexSink: A merges 5; B's merge panics inside the lock on another thread (contained by join); C merges 7; close
+    let parent = ParentM { calls: MutexSink::new(Aggregate::default()) };
+    RootSink::merge(&parent.calls, plain(5).plain().close());
+    let h = parent.calls.clone();
+    let big = plain(u64::MAX);
+    let b = std::thread::spawn(move || RootSink::merge(&h, big.plain().close())).join().is_err();
+    if !b {
+        out.push("fault probe: an overflowing Sum<u64> merge did not panic in this build (wrapping arithmetic): probe skipped".into());
+        return out;
+    }
+    let h = parent.calls.clone();
+    let c = catch(|| RootSink::merge(&h, plain(7).plain().close())).is_err();
+    let closed = catch(|| agg_of(&test_metric(parent)));
+    out.push(format!(
+        "fault probe MutexSink: after one caller's merge panicked inside the lock (poisoned mutex), another caller's later merge panics: {c}; closing the sink: {}",
+        match closed {
+            Ok(a) => format!("emits bytes={:?}", a.bytes),
+            Err(p) => format!("panics ({p}): the aggregate holding the earlier callers' inputs is never emitted"),
+        }
+    ));
+    // WorkerSink: entry a:5, then an entry whose merge panics in the worker thread, then b:7, flush, drop
+    let ts = test_entry_sink();
+    let (dtx, drx) = mpsc::channel();
+    let agg = KeyedAggregator::<Call, BoxEntrySink>::new(ts.sink.clone());
+    let w: WorkerSink<CallEntry, Probe<KeyedAggregator<Call, BoxEntrySink>>> =
+        WorkerSink::new(Probe { inner: agg, dropped: dtx }, Duration::from_secs(3600));
+    let key = |e: &str, bytes: u64| In { endpoint: e.into(), shard: 0, bytes, last: 0, obs: vec![], opt: None, inner: 0 };
+    w.send(key("a", 5).call().close());
+    w.send(key("a", u64::MAX).call().close());
+    let died = drx.recv_timeout(Duration::from_secs(5)).is_ok();
+    let sent = catch(|| w.send(key("b", 7).call().close())).is_ok();
+    let rt = rt();
+    let flushed = match catch(|| rt.block_on(async { tokio::time::timeout(Duration::from_secs(5), w.flush()).await })) {
+        Ok(Ok(())) => "completes",
+        Ok(Err(_)) => "times out",
+        Err(_) => "panics",
+    };
+    drop(w);
+    out.push(format!(
+        "fault probe WorkerSink: a merge that panics in the worker thread ends the thread (inner sink dropped unflushed: {died}); a later send by another caller returns normally: {sent} (the entry is silently discarded); flush then {flushed}; aggregates emitted in total: {} (the entry a:5 merged before the panic is lost too)",
+        ts.inspector.entries().len()
+    ));
+    out
+}
+
 fn shrink_case(c: &Case, fails: impl Fn(&Case) -> bool) -> Case {
     let toks = shrink_list(&c.toks, |t| fails(&c.with(t)));
     c.with(&toks)
@@ -1978,6 +2127,7 @@ fn main() {
     if let Some(line) = args.replay_case() {
         cases.extend(Case::decode(&line));
     } else {
+        rep.notes.extend(probe_panicking_merge());
         for l in args.corpus_cases() {
             match Case::decode(&l) {
                 Some(c) => cases.push(c),
